@@ -260,7 +260,7 @@ class Undetermined(Exception):
     pass
 
 
-def trace(g, start, atom, stop=(), iter_decide=None, maxsteps=400):
+def trace(g, start, atom, stop=(), iter_decide=None, maxsteps=400, visit=None):
     """Follow the CFG from `start`, deciding each test with eval3 over `atom`.
 
     Returns (visited nodes in order, terminal) where terminal is 'exit' | 'xexit' | 'stop' | 'loop'.
@@ -283,6 +283,8 @@ def trace(g, start, atom, stop=(), iter_decide=None, maxsteps=400):
         if n in seen and n.kind in ("test", "iter"):
             return seen, "loop"
         seen.append(n)
+        if visit is not None:
+            visit(n)
         if n.kind == "test":
             t = test_expr(n)
             v = eval3(t, atom)
